@@ -99,6 +99,10 @@ func Main(m *testing.M, property string) {
 		code = 1
 	} else if harnessOnly > 0 {
 		Note("harness_only_races", fmt.Sprint(harnessOnly))
+		fmt.Println("harness: data race with an access made by harness code (infrastructure problem, not a verdict); see notes in the fragment")
+		if code == 0 {
+			code = 3
+		}
 	}
 	writeFragment(code)
 	os.Exit(code)
